@@ -202,6 +202,28 @@ def judge(case):
     got_nodes = back.walk()
     if [n["c"].upper() for n in nodes] != [c.name for c in got_nodes]:
         return [Failure("C02.nesting", "nesting-differs", f"{[n['c'].upper() for n in nodes]!r} vs {[c.name for c in got_nodes]!r}")]
+    # the other documented serialisation, to_ical(sorted=False) (insertion order of properties), denotes the same tree
+    try:
+        sut.reset(provider)
+        raw_u = root.to_ical(sorted=False)
+        back_u = Component.from_ical(raw_u)
+
+        def flat(c):
+            out = []
+            for k_ in sorted(str(x) for x in c.keys()):
+                vs = c[k_] if isinstance(c[k_], list) else [c[k_]]
+                out.append((k_, [(v_.to_ical(), sorted((str(a), str(b)) for a, b in getattr(v_, "params", {}).items())) for v_ in vs]))
+            return out
+        wu = back_u.walk()
+        if [c.name for c in wu] != [c.name for c in got_nodes]:
+            fails.append(Failure("C02.nesting", "nesting-differs/to_ical(sorted=False)", f"{[c.name for c in wu]!r} vs {[c.name for c in got_nodes]!r}"))
+        else:
+            for a_, b_ in zip(wu, got_nodes):
+                if flat(a_) != flat(b_):
+                    fails.append(Failure("C02.values", "unsorted-serialisation-denotes-other-properties", f"{a_.name}: {flat(a_)!r} vs {flat(b_)!r}"[:500]))
+                    break
+    except Exception as e:  # noqa: BLE001
+        fails.append(Failure("C02.parse", "unsorted-serialisation-raises/" + exc_signature(e), repr(e)[:300]))
     # emitted text per component (BEGIN order == pre-order)
     blocks, stack = [], []
     for ln in unfold(raw):
